@@ -283,6 +283,40 @@ def generate(impls_rs, key_rs, tree_rs):
                 _s, t_fn = M.find_fn(body, method)
                 out += value_fn(f"tuple{n}.{method}", M.parse_block(t_fn), method, n,
                                 doc=f"`<(T0, …) as {trait}>::{method}` for the {n}-tuple")
+    # Option<T>: `self.as_ref().ok_or(Absent(0))?.f(keys, x)` — the unwrapped value is bound to `inner`, the child call is a
+    # parameter, and for the `&mut self` functions the (possibly updated) value is put back
+    def option_fn(method, trait_hdr):
+        tag, mutating, res_ty, tparams = OPS[method]
+        _sig, b = fn_in(src, trait_hdr, method)
+        call = b[2]
+        if not (b[0] == "block" and not b[1] and call and call[0] == "mcall" and call[2] == method and call[1][0] == "try"):
+            raise Unsupported(f"Option::{method}: body {b!r}")
+        unwrap = call[1]
+        child = "child" + tag
+        if mutating:
+            body = ("block", [("let", ("pbind", "inner"), unwrap), ("let", ("pbind", "r"), ("call", ("path", [child]), [])),
+                              ("semi", ("assign", "=", ("path", ["self"]), ("call", ("path", ["Some"]), [("path", ["inner"])])))],
+                    ("path", ["r"]))
+        else:
+            body = ("block", [("let", ("pbind", "inner"), unwrap)],
+                    ("call", ("path", [child]), [("path", ["inner"]), ("path", ["keys"])]))
+        tb = tables(0, dict(consts), dict(key_fns))
+        tb.methods = VAL_METHODS
+        tb.vartypes = {"self": "OptSelf"}
+        tb.effects = {}
+        if mutating:
+            tb.effects[("call", child)] = {"fmt": f"({child} inner keys)", "pair": "inner"}
+        else:
+            tb.fns[child] = (child, "pure")
+        tb.try_into = {"Traversal": "(Error.Traversal {0})"} if tag in ("Ser", "De") else {}
+        tb.structs = {"Self": "Option C"}
+        sig = f"{{K C : Type}} {tparams}{child_sig(tag, mutating, res_ty)} (self : Option C) (keys : K)"
+        return translate_fn(body, f"Option.{method}", sig, res_ty, tb, "pure", mut_self=mutating,
+                            doc=f"`<Option<T> as …>::{method}`: `None` is `Absent(0)`, before any key is looked at")
+    out += option_fn("serialize_by_key", r"<T: TreeSerialize> TreeSerialize for Option<T>")
+    out += option_fn("deserialize_by_key", r"<'de, T: TreeDeserialize<'de>> TreeDeserialize<'de> for Option<T>")
+    out += option_fn("ref_any_by_key", r"<T: TreeAny> TreeAny for Option<T>")
+    out += option_fn("mut_any_by_key", r"<T: TreeAny> TreeAny for Option<T>")
     # transparent wrappers: delegation only
     wrappers = []
     want_all = ("block", [], ("call", ("path", ["T", "traverse_all"]), []))
